@@ -9,6 +9,7 @@ import (
 	"fmt"
 	"math/big"
 	"os"
+	"strings"
 	"sync"
 	"testing"
 
@@ -259,4 +260,57 @@ func TestC10_Known_RestrictChainNonHeadBranch(t *testing.T) {
 		return
 	}
 	t.Fatalf("%s (history: creation header P at height 100; A=child(P) accepted; B=child(P) accepted, head=B; C=child(A) submitted)", bad)
+}
+
+// TestC10_Known_RestrictChainEqualRootStaleAncestry is the pinned, library-free reproduction of the second
+// manifestation: B=child(P) accepted, then A=child(P), A2, A3 (head A3, B off the head's ancestry);
+// C=child(B) whose state root equals A2's (same height) is accepted but the consensus state one
+// height below keeps A's root instead of B's.
+func TestC10_Known_RestrictChainEqualRootStaleAncestry(t *testing.T) {
+	r := rec.For("TestC10_Known_RestrictChainEqualRootStaleAncestry", "pinned: P; B, A, A2, A3 accepted (head A3); C=child(B) with C.root == A2.root")
+	c := baseChain()
+	ctx, _ := c.Ctx().CacheContext()
+	w := &world{ctx: ctx}
+	w.setNow(startNow)
+	ctx = w.ctx
+	root := func(b byte) common.Hash { return common.BytesToHash([]byte{b}) }
+	p := ethsim.Genesis(ethsim.GenesisOpts{Number: 100, Time: startNow - 1000, GasLimit: 30_000_000, GasUsed: 15_000_000, BaseFee: 1_000_000_000, Root: root(1)})
+	a := ethsim.Child(p, ethsim.ChildOpts{DT: 10, GasUsedPermil: 500, Root: root(0xa), Extra: []byte("A")})
+	a2 := ethsim.Child(a, ethsim.ChildOpts{DT: 10, GasUsedPermil: 500, Root: root(0xee), Extra: []byte("A2")})
+	a3 := ethsim.Child(a2, ethsim.ChildOpts{DT: 10, GasUsedPermil: 500, Root: root(0xa3), Extra: []byte("A3")})
+	b := ethsim.Child(p, ethsim.ChildOpts{DT: 11, GasUsedPermil: 500, Root: root(0xb), Extra: []byte("B")})
+	cc := ethsim.Child(b, ethsim.ChildOpts{DT: 10, GasUsedPermil: 500, Root: root(0xee), Extra: []byte("C")})
+	kit.Must(c.App.XIBCKeeper.ClientKeeper.CreateClient(ctx, clientName, ethsim.ClientState(p, 4, trustingPeriod), ethsim.ConsensusState(p)), "create client")
+	kit.Must(update(c, ctx, b), "B (child of the creation header)")
+	kit.Must(update(c, ctx, a), "A (sibling of the head)")
+	kit.Must(update(c, ctx, a2), "A2 (child of the head)")
+	kit.Must(update(c, ctx, a3), "A3 (child of the head)")
+	err := update(c, ctx, cc)
+	tree := ethsim.NewTree(p)
+	idb, _ := tree.Add(0, b)
+	idc, _ := tree.Add(idb, cc)
+	msg := ""
+	if err == nil {
+		msg = checkHeadAndAncestry(c, ctx, tree, idc)
+	}
+	r.Case("pinned-equal-root", true, func() interface{} {
+		return fmt.Sprintf("P(100); B, A, A2(root ee), A3 accepted; C=child(B) with root ee: err=%v; %s", err, msg)
+	})
+	r.Case("pinned-equal-root-2", true, nil)
+	if err != nil {
+		// rejected: that is the other manifestation (restrictchain-nonhead-branch), pinned by its own test
+		if kf.Listed("C10", kfNonHead) {
+			return
+		}
+		t.Fatalf("valid child C of stored header B rejected: %s", firstLine(err.Error()))
+	}
+	if msg == "" {
+		return // no longer reproduces
+	}
+	if kf.Listed("C10", kfEqualRoot) && strings.HasPrefix(msg, "consensus state at height 101 ") {
+		kf.Report("C10", kfEqualRoot)
+		r.KnownFinding(kfEqualRoot, msg)
+		return
+	}
+	t.Fatalf("C=child(B) accepted (history: P at 100; B, A, A2, A3 accepted, head A3; C.root == A2.root) but: %s", msg)
 }
